@@ -612,6 +612,13 @@ func (sm *Sim) Apply(tok string) (out string) {
 		}
 		sm.settle()
 		return "ok"
+	case "H": // the APPLICATION writes an exported field it owns: Host.HuntStage of FindIP(ip), under the row lock
+		if h := sm.S.FindIP(ParseIP(f[1])); h != nil {
+			h.MACEntry.Row.Lock()
+			h.HuntStage = packet.HuntStage(atoi(f[2]))
+			h.MACEntry.Row.Unlock()
+		}
+		return "ok"
 	case "D":
 		l := sm.Drain()
 		s := make([]string, len(l))
@@ -2189,4 +2196,71 @@ func notOUI(m string, mac net.HardwareAddr) string {
 		return ""
 	}
 	return m
+}
+
+// WithStages inserts application writes of Host.HuntStage (op H: hunt / redirected / normal) on the LAN addresses and the
+// link-local addresses of the universe at random points of a history.
+func (g *Gen) WithStages(ops []string, percent int) []string {
+	u := g.U
+	var out []string
+	for _, o := range ops {
+		out = append(out, o)
+		if o != "N" && g.Rng.Chance(percent) { // not between a Parse and its Notify
+			var ip netip.Addr
+			if g.Rng.Chance(75) {
+				ip = u.IP4s[2+g.Rng.Intn(3)]
+			} else {
+				ip = u.IP6s[g.Rng.Intn(4)]
+			}
+			out = append(out, fmt.Sprintf("H,%s,%d", IPTok(ip), g.Rng.Pick(2, 2, 3, 3, 1)))
+		}
+	}
+	return out
+}
+
+// HuntStageHistory: a client online (or aged offline) on address A is put into stage hunt / redirected by the application;
+// then ANOTHER MAC claims A (frame, ARP, DHCPv4Update: the duplicate-IP branch), with Notify; then the usual follow-ups:
+// repeat traffic of both MACs, the first client on a new address, purges, a stage change back.
+func (g *Gen) HuntStageHistory() []string {
+	u := g.U
+	m1 := u.MACs[2+g.Rng.Intn(3)]
+	m2 := u.MACs[2+(g.Rng.Intn(2)+1+indexOfMAC(u.MACs, m1)-2)%3]
+	ip4 := []netip.Addr{u.IP4s[2], u.IP4s[3], u.IP4s[4]}
+	a := ip4[g.Rng.Intn(3)]
+	now := int64(0)
+	t := func(d int64) int64 { now += d; return now }
+	ops := []string{RxTok(m1, "4", a, nil, 0, t(1)), "N"}
+	if g.Rng.Chance(30) {
+		ops = append(ops, RxTok(m1, "6", u.IP6s[0], nil, 0, t(1)), "N")
+	}
+	if g.Rng.Chance(25) {
+		ops = append(ops, fmt.Sprintf("P,%d", t(301))) // offline before the stage is set
+	}
+	ops = append(ops, fmt.Sprintf("H,%s,%d", IPTok(a), g.Rng.Pick(2, 3)))
+	switch g.Rng.Intn(3) { // the duplicate-IP branch
+	case 0:
+		ops = append(ops, RxTok(m2, "4", a, nil, g.Rng.Intn(3), t(1)), "N")
+	case 1:
+		ops = append(ops, RxTok(m2, "a", a, m2, g.Rng.Intn(2), t(1)), "N")
+	default:
+		ops = append(ops, fmt.Sprintf("U,%s,%s,%s,%d", MacTok(m2), IPTok(a), g.name(), t(1)))
+		ops = append(ops, RxTok(m2, "4", u.IP4s[6], nil, 3, t(1)), "N")
+	}
+	for k := 0; k < 1+g.Rng.Intn(4); k++ {
+		switch g.Rng.Intn(6) {
+		case 0:
+			ops = append(ops, RxTok(m2, "4", a, nil, 0, t(1)), "N")
+		case 1:
+			ops = append(ops, RxTok(m1, "4", ip4[g.Rng.Intn(3)], nil, 0, t(1)), "N")
+		case 2:
+			ops = append(ops, fmt.Sprintf("P,%d", t(int64(g.Rng.Pick(100, 301)))))
+		case 3:
+			ops = append(ops, fmt.Sprintf("H,%s,%d", IPTok(a), g.Rng.Pick(1, 2, 3)))
+		case 4:
+			ops = append(ops, RxTok(m1, "4", a, nil, 0, t(1)), "N") // the first owner claims the address back
+		case 5:
+			ops = append(ops, fmt.Sprintf("P,%d", t(3661)))
+		}
+	}
+	return ops
 }
